@@ -72,6 +72,12 @@ CLAIMED = {
         text="TLC checks for every n <= 72 and 1-4 workers that the transcribed chunk computation terminates and partitions [0,n) exactly, and that narrow-word arithmetic (the pre-fix code) does not; the owner/thief protocol of the index queues is checked exhaustively; real bulk runs on two pools over boundary shapes, 5 shape types, throwing sets and shapes around 2^31/2^32 must satisfy BulkAbs: each index called exactly once with unchanged values, no call outside [0,n), exactly one completion after the last call returned, an error drawn from the thrown ones",
         note="sequential consistency; indices above 2^26 verified by count and sum only; schedules sampled",
         design="5/C11"),
+    "C10": dict(
+        category="model_checking",
+        technique="TLA+ monitor spec PlaceAbs (placement rule as action guards) checked by TLC on a closed model + TLC trace validation of placement records emitted by every callable of random cross-pool pipelines and hinted tasks on the real runtime",
+        text="the rule (task of the target pool, never in the submitting context, hinted worker on static policies for every phase, fresh non-pika thread for std_thread_scheduler) is a TLA+ action guard; TLC validates every placement record of random pipelines over three pools (schedule/transfer_just/continues_on/then/bulk/execute, from inside and outside the runtime) and of hinted multi-phase tasks that yield or block between phases while wake-ups race with the context switch; the end-of-history record also requires that exactly the expected number of callables ran",
+        note="there is no interesting interleaving model here: TLC acts as trace monitor and as enumerator of the rule's cases; only the value channel is claimed",
+        design="5/C10"),
 }
 
 NOT_YET = {}
